@@ -266,6 +266,25 @@ def _r2(case, bad):
                         bad("r2_score_comparable != r2_score(f(y), g(p))", cond, "%r vs %r y=%r p=%r" % (got, exp, ys, ps))
                     if not (numpy.array_equal(y, y0) and numpy.array_equal(p, p0)):
                         bad("r2_score_comparable modifies its input", cond, "")
+    # multi-output targets (n rows, 2 columns): r2_score's own default averaging over the outputs
+    for ys in case["ys"][:4]:
+        Y = numpy.column_stack([numpy.array(ys), numpy.array(ys)[::-1] * 3.0 + 1.0])
+        for ps in list(itertools.product(alpha, repeat=n))[::7]:
+            P = numpy.column_stack([numpy.array(ps), numpy.array(ps) * 0.5 + 2.0])
+            for tr, inv in ((None, "log"), ("log", None), ("exp", "exp"), (numpy.sqrt, "log")):
+                cnt += 1
+                cond = "tr=%s,inv_tr=%s,two output columns" % (tr if tr is None or isinstance(tr, str) else "callable",
+                                                             inv if inv is None or isinstance(inv, str) else "callable")
+                f = (lambda v: v) if tr is None else (fn[tr] if isinstance(tr, str) else tr)
+                g = (lambda v: v) if inv is None else (fn[inv] if isinstance(inv, str) else inv)
+                try:
+                    got = r2_score_comparable(Y, P, tr=tr, inv_tr=inv)
+                    exp = r2_score(f(Y), g(P))
+                except Exception as e:
+                    bad("r2_score_comparable raises %s" % type(e).__name__, cond, "%s Y=%r" % (e, Y.tolist()))
+                    continue
+                if not (got == exp or (numpy.isnan(got) and numpy.isnan(exp))):
+                    bad("r2_score_comparable != r2_score(f(y), g(p))", cond, "%r vs %r Y=%r P=%r" % (got, exp, Y.tolist(), P.tolist()))
     return cnt, True
 
 
